@@ -512,8 +512,8 @@ def _real_chain_cases(rng, n):
 
 def _replay_chain(mv, ob):
     import random
-    cases, fails = _real_chain_cases(random.Random(20260922), 25)
-    return dict(reproduced=bool(fails), input="25 random models (R-sets, NKFFT, der, hermitian) through all four back ends of the installed code", failed=fails[:3])
+    cases, fails = _real_chain_cases(random.Random(20260922), 8)
+    return dict(reproduced=bool(fails), input="8 random models (R-sets, NKFFT, der, hermitian) through all four back ends of the installed code", failed=fails[:3])
 
 
 def _bounded_chain(rng, n):
